@@ -25,13 +25,27 @@ fn gen_pause(rng: &mut Rng) -> Op {
 fn gen_case(mode: Mode, rng: &mut Rng) -> Case {
     match mode {
         Mode::Kill => {
+            // victims' queue depth: mostly roomy, sometimes tiny so that a flood fills it
+            let vcap = *rng.pick(&[64u16, 64, 4, 2, 1]);
             let mut ops = vec![
-                Op::Register { ident: 0, v1: rng.chance(1, 4), cap: 64 },
-                Op::Register { ident: 1, v1: rng.chance(1, 4), cap: 64 },
+                Op::Register { ident: 0, v1: rng.chance(1, 4), cap: vcap },
+                Op::Register { ident: 1, v1: rng.chance(1, 4), cap: vcap },
                 Op::Register { ident: 2, v1: false, cap: 64 },
             ];
             let n = rng.range(2, 14);
             for _ in 0..n {
+                if rng.chance(1, 6) {
+                    // flood: the victim does not read for a moment (far shorter than the write timeout)
+                    // while the attacker sends more datagrams than its queue holds, then it reads again
+                    let v = rng.range(0, 1) as u8;
+                    ops.push(Op::Reading { conn: v, on: false });
+                    for _ in 0..rng.range(3, 24) {
+                        ops.push(Op::Send { conn: 2, dst: v, len: rng.range(8, 1200) as u32, ecn: 0, seg: None });
+                    }
+                    ops.push(Op::Pause { kind: 3, ms: rng.range(0, 300) as u32 });
+                    ops.push(Op::Reading { conn: v, on: true });
+                    continue;
+                }
                 let op = match rng.below(10) {
                     0..=5 => {
                         let dst = *rng.pick(&[0u8, 0, 1, 2, 3]);
